@@ -7,7 +7,7 @@
      disjoint, ascending ranges - proved in Proofs_RowIdIndex - so insertion never splits or overwrites).
    * The debug_assert_eq!s inside prep_index_chunks are invariants of its own loop (they compare
      current_range with the min start / max end of current_overlap, which the loop maintains by
-     construction) and are not modelled; the one in RowIdIndex::new ("Wrong range") is modelled (F18). *)
+     construction) and are not modelled; the one in RowIdIndex::new ("Wrong range", relaxed to >= by ac0e2db) is modelled. *)
 From LanceV Require Import Common.Base Core.Model_RowIds.
 Local Open Scope N_scope.
 
@@ -104,8 +104,9 @@ Fixpoint finalize (raws : list raw) : outcome (list chunk) :=
   | [] => Ok []
   | NonOv c :: rest => do more <- finalize rest; Ok (c :: more)
   | Ov (lo, hi) cs :: rest =>
-      (* debug_assert_eq!(range.end() - range.start() + 1, sum of lens, "Wrong range ...") *)
-      if negb (hi - lo + 1 =? sum_N (map chunk_len cs)) then Panic
+      (* debug_assert!(range.end() - range.start() + 1 >= sum of lens, "Wrong range ...") - relaxed by ac0e2db
+         (was an equality, F18): the chunks need not tile the range *)
+      if hi - lo + 1 <? sum_N (map chunk_len cs) then Panic
       else do m <- merge_overlapping_chunks cs; do more <- finalize rest; Ok (m :: more)
   end.
 
@@ -121,15 +122,6 @@ Definition index_get (idx : list chunk) (row_id : N) : option N :=
               | None => None
               | Some pos => seg_get (snd (snd c)) pos
               end
-  end.
-
-(* F18: an overlapping group whose chunks do not exactly tile its range *)
-Definition overlap_mismatch (r : raw) : bool :=
-  match r with NonOv _ => false | Ov (lo, hi) cs => negb (hi - lo + 1 =? sum_N (map chunk_len cs)) end.
-Definition Known_C34_index_overlapping_ranges (frags : list frag) : bool :=
-  match decompose_all frags with
-  | Ok chunks => match prep_index_chunks chunks with Ok raws => existsb overlap_mismatch raws | _ => false end
-  | _ => false
   end.
 
 (* ---------- correspondence ---------- *)
@@ -149,9 +141,10 @@ Example ut_index :
         Some (20 * two32 + 2); Some (20 * two32 + 4); None].
 Proof. vm_compute. reflexivity. Qed.
 
-(* F18 on the model: old fragment keeps {1,2,4,5,8}, the updated row carries id 7 into a new fragment *)
+(* F18 regression (repaired by ac0e2db): old fragment keeps {1,2,4,5,8}, the updated row carries id 7 into a
+   new fragment; new succeeds through merge_overlapping_chunks and get is exact *)
 Example ut_index_f18 :
-  index_new [ (0, [SBitmap 1 9 [true; true; false; true; true; false; false; true]], []); (1, [SRange 7 8], []) ] = Panic
-  /\ Known_C34_index_overlapping_ranges
-       [ (0, [SBitmap 1 9 [true; true; false; true; true; false; false; true]], []); (1, [SRange 7 8], []) ] = true.
-Proof. vm_compute. split; reflexivity. Qed.
+  (do idx <- index_new [ (0, [SBitmap 1 9 [true; true; false; true; true; false; false; true]], []); (1, [SRange 7 8], []) ];
+   Ok (map (index_get idx) [0; 1; 2; 3; 4; 5; 6; 7; 8; 9]))
+  = Ok [None; Some 0; Some 1; None; Some 2; Some 3; None; Some two32; Some 4; None].
+Proof. vm_compute. reflexivity. Qed.
